@@ -78,6 +78,7 @@ inductive AVal where
 structure AState where
   pop : AVal
   off : AVal
+  next : AVal               -- the list returned by the selection (a fresh local in the Python code)
   deriving Repr, DecidableEq, Inhabited
 
 def AVal.join : AVal → AVal → AVal
@@ -91,14 +92,16 @@ def srcVal (a : AState) : Src → AVal
   | .off => a.off
   | .popPlusOff => a.pop.join a.off
 
-/-- `none` = a fitness read of a container that is not known to be evaluated -/
+/-- `none` = a fitness read of a container that is not known to be evaluated.
+`select` binds its result to a new container `next` and leaves `pop`/`off` as they are (the
+diagnostics of the base `EvolutionaryAlgorithm` run after the selection, on `pop` and `off`). -/
 def absStep (a : AState) : Phase → Option AState
   | .variation => if a.pop = .none then none else some { a with off := .fr }
   | .evalPop => if a.pop = .none then none else some { a with pop := .ev }
   | .evalOff => if a.off = .none then none else some { a with off := .ev }
   | .diagnostics => if a.pop = .ev ∧ a.off = .ev then some a else none
-  | .select s => if srcVal a s = .ev then some { pop := .ev, off := .none } else none
-  | .shuffle => some a
+  | .select s => if srcVal a s = .ev then some { a with next := .ev } else none
+  | .shuffle => if a.next = .none then none else some a
   | .resetPop => if a.pop = .none then none else some { a with pop := .fr }
   | .readPop => if a.pop = .ev then some a else none
   | .unsupported _ => none
@@ -111,10 +114,10 @@ def absRun : List Phase → AState → Option AState
     | some a' => absRun rest a'
 
 /-- a generational step is accepted from an entry population in state `entry` iff every read is
-safe and the returned population is evaluated -/
+safe and the returned population (`next`) is evaluated -/
 def accepts (entry : AVal) (ps : List Phase) : Bool :=
-  match absRun ps { pop := entry, off := .none } with
-  | some a => a.pop = .ev
+  match absRun ps { pop := entry, off := .none, next := .none } with
+  | some a => a.next = .ev
   | none => false
 
 end Pipeline
